@@ -13,7 +13,7 @@ DIMS = {
     "masters": ["two_default_min", "two_default_max", "three_default_middle", "three_default_min"],
     "metrics": [[1024, 950, -250], [1000, 800, -200], [2048, 1900, -500]],
     "width": [1275, 0, 3000],
-    "scene": ["base", "nogroup", "three_glyphs", "reuse_rot", "sticks_out"],
+    "scene": ["base", "nogroup", "three_glyphs", "reuse_rot", "sticks_out", "aba"],
     "range": ["300-700", "100-900", "0-1", "62.5-112.5"],
     "master_names": ["plain", "suffix"],
     "toml_order": ["ascending", "descending", "default_last"],
@@ -41,7 +41,8 @@ def master_scenes(a):
     from vmc.core import lattice as L
     from vmc.gen import scenes
 
-    dev = {"base": {}, "nogroup": {"grp": "none"}, "three_glyphs": {"nglyphs": 3}, "reuse_rot": {"place": "r30", "outline": "tri"}, "sticks_out": {"grp": "none"}}[a["scene"]]
+    dev = {"base": {}, "nogroup": {"grp": "none"}, "three_glyphs": {"nglyphs": 3}, "reuse_rot": {"place": "r30", "outline": "tri"}, "sticks_out": {"grp": "none"},
+           "aba": {"clone": "same"}}[a["scene"]]  # three glyphs, the first and the last with equal bounds
     glyphs, over = scenes.mk(L.full(scenes.DIMS, dev))
     if a["scene"] == "sticks_out":
         # a box that reaches past the right edge of the viewBox in every master: clipping to the viewBox is part of each master's build
